@@ -30,6 +30,8 @@ fn main() {
 
     match build_file(opt.source.clone(), btreeset! { get_standard_includes() }) {
         Ok(built) => {
+            // file to which code is written, eeprom must not replace it
+            let mut code_path = None;
             // write to file code
             if !built.code.is_empty() {
                 let outpath = if let Some(output) = opt.output {
@@ -49,8 +51,8 @@ fn main() {
                     source_parent
                 };
 
-                match write_code_hex(outpath, &built) {
-                    Ok(()) => {}
+                match write_code_hex(outpath.clone(), &built) {
+                    Ok(()) => code_path = outpath.canonicalize().ok(),
                     Err(e) => {
                         failed = true;
                         println!(
@@ -81,14 +83,22 @@ fn main() {
                     source_parent
                 };
 
-                match write_eeprom_hex(outpath, &built) {
-                    Ok(()) => {}
-                    Err(e) => {
-                        failed = true;
-                        println!(
-                            "Failed to generate and write hex file {}, with error {}",
-                            file_name, e
-                        )
+                if code_path.is_some() && code_path == outpath.canonicalize().ok() {
+                    failed = true;
+                    println!(
+                        "Failed to write eeprom hex file {}, same file is used for code",
+                        file_name
+                    )
+                } else {
+                    match write_eeprom_hex(outpath, &built) {
+                        Ok(()) => {}
+                        Err(e) => {
+                            failed = true;
+                            println!(
+                                "Failed to generate and write hex file {}, with error {}",
+                                file_name, e
+                            )
+                        }
                     }
                 }
             } else {
